@@ -155,7 +155,7 @@ CLAIMS['C16'] = dict(engine='symbolic execution of the real methods on sympy coe
     note='Floating point at relative 2e-9; scipy harmonics trusted.')
 
 CLAIMS['C17'] = dict(engine='symx polynomial rings (E4) + rtc (E3)', category='exploration',
-    technique='change of variables: the real rotatedirections / rotate / irotate run on a fully symbolic matrix and symbolic coefficients, postcondition value(rotated)(p) = value(original)(M p) decided as a polynomial identity over ZZ[M, p, c] for every (n, l) of the precondition in 2D and 3D, plus a structural obligation that rotatecoeff maps each entry on its own (level P); inversion and floating point: run-time postconditions of rotatedirections/rotate/irotate (value at p equals original at M p) and inv (inverse times original is the identity through the requested order, both sides) against an independently written evaluator; bounded stand-in',
+    technique='change of variables: the real rotatedirections / rotate / irotate run on a fully symbolic matrix and symbolic coefficients, postcondition value(rotated)(p) = value(original)(M p) decided as a polynomial identity over ZZ[M, p, c] for every (n, l) of the precondition in 2D and 3D, plus a structural obligation that rotatecoeff maps each entry on its own (level P); inversion: the real inv run on symbolic scalar / 2x2 coefficients, both products reduced to normal form modulo the unit-sphere and inverse-determinant relations, per enumerated structure (level S); floating point: run-time postconditions of rotatedirections/rotate/irotate (value at p equals original at M p) and inv (inverse times original is the identity through the requested order, both sides) against an independently written evaluator; bounded stand-in',
     text='Bounded: random invertible non-orthogonal, orthogonal, diagonal and permutation matrices, parity-consistent reduced and un-reduced expansions, three value shapes; inversion with lead order 0..2, requested order -1..2; 2D and 3D.',
     note='Floating point at relative 2e-9.')
 
